@@ -173,6 +173,10 @@ class Domain(object):
         return getattr(self.mod, name)
 
     def new(self, kind, impl):
+        if self.cfg.get("sub"):
+            # the container is an instance of a trivial user subclass
+            from . import subcls
+            return subcls.get(self.fam, kind, impl)()
         return self.cls(kind, impl)()
 
     def set_node_sizes(self, leaf, internal):
